@@ -19,7 +19,7 @@ REWRITES = ('none', 'reflect', 'replay', 'swapid', 'method', 'flip')
 def cfg(sign=True, cred_i=True, cred_r=True, dump=False):
     b = lambda x: 'TRUE' if x else 'FALSE'
     s = (f'SPECIFICATION Spec\nCONSTANTS\n SignInitMsg = {b(sign)}\n CredIOk = {b(cred_i)}\n CredROk = {b(cred_r)}\n'
-         ' Msg34Rewrites = {"none", "reflect", "replay", "swapid", "method", "flip", "empty", "prefix", "extend"}\n')
+         ' Msg34Rewrites = {"none", "reflect", "replay", "swapid", "method", "flip", "empty", "prefix", "extend", "pskempty", "pskid"}\n')
     if not dump:
         s += 'INVARIANT Agreement\nINVARIANT ResponderAgreement\nINVARIANT InitiatorAgreement\nINVARIANT NoInstallWithoutAuth\nINVARIANT NoKeyCompromise\n'
     else:
@@ -141,9 +141,18 @@ class Mitm:
         d = 'i' if to_r else 'r'       # direction of the message: sent by the initiator (msg 3) or by the responder (msg 4)
         m = W.dec_message(data, {'ke': src_keys['sk_e' + d], 'ka': src_keys['sk_a' + d], 'integ': src_integ})
         inner = []
+        dview = self.view_r if to_r else self.view_i
+        idp = next((p for p in m['inner'] if p['t'] == (W.IDI if to_r else W.IDR)), None)
         for p in m['inner']:
             p = dict(p)
-            if p['t'] == W.AUTH:
+            if p['t'] == W.AUTH and rw in ('pskempty', 'pskid') and idp is not None:
+                # a shared-key AUTH over exactly the octets the receiver will reconstruct, keyed with a secret anybody knows: the empty string / the identity
+                prf_id = next(t['id'] for t in dview['suite']['transforms'] if t['type'] == 2)
+                octets = kdf_ref.signed_octets(prf_id, dview['req'] if to_r else dview['res'], dview['nr'] if to_r else dview['ni'],
+                                               dst_keys['sk_pi' if to_r else 'sk_pr'], idp['id_type'], idp['data'])
+                p['method'] = 2
+                p['data'] = kdf_ref.psk_auth(prf_id, b'' if rw == 'pskempty' else bytes(idp['data']), octets)
+            elif p['t'] == W.AUTH:
                 if to_r:
                     self.captured_auth_i = dict(p)
                 if rw == 'flip':
@@ -251,13 +260,14 @@ def run(tier, replay=None):
         def changes(p):
             acts = [g.edges[i][1] for i in p]
             return sum(len(a.get('s', [])) + (a.get('chosen', 'keep') != 'keep') + (a.get('rw', 'none') != 'none') for a in acts)
-        if tier == 'quick':
+        if True:
             def dh_mitm_single(p):
                 # the full Diffie-Hellman man in the middle (both KE values substituted, nothing else) with at most one AUTH/ID rewrite
                 acts = [g.edges[i][1] for i in p]
                 subs = [tuple(sorted(a.get('s', []))) for a in acts if a['a'] in ('Msg1', 'Msg2')]
                 return (subs[:2] == [('kei',), ('ker',)] and all(a.get('chosen', 'keep') == 'keep' for a in acts)
                         and sum(a.get('rw', 'none') != 'none' for a in acts) <= 1)
+        if tier == 'quick':
             few = [p for p in paths if changes(p) <= 1 or dh_mitm_single(p)]   # the unmodified exchange, every single rewrite, every rewrite by the DH man in the middle: always
             rest = [p for p in paths if not (changes(p) <= 1 or dh_mitm_single(p))]
             paths = few + rnd.sample(rest, min(len(rest), 240 if (cred_i and cred_r) else 50))
@@ -265,7 +275,7 @@ def run(tier, replay=None):
         for pi, p in enumerate(paths):
             actions = [g.edges[i][1] for i in p]
             leaf = g.states[g.edges[p[-1]][3]]
-            for auth in (('psk', 'rsa') if (tier == 'thorough' or pi % 7 == 0) else ('psk',)):
+            for auth in (('psk', 'rsa') if (tier == 'thorough' or pi % 7 == 0 or dh_mitm_single(p)) else ('psk',)):
                 got, want, trace = run_attack(actions, leaf, cred_i, cred_r, auth, common.SEED + pi, old_auth)
                 n += 1
                 key = (tuple(sorted(want.items())) if isinstance(want, dict) else want)
